@@ -212,7 +212,7 @@ Proof.
   intros Hn Hin Hnt. destruct (remove_seq_split q c Hn Hin) as [l1 [l2 [-> ->]]].
   rewrite !map_app, !filter_app. simpl. rewrite Hnt.
   rewrite <- !app_assoc. apply Permutation_app_head. simpl.
-  rewrite <- app_assoc. apply Permutation_middle.
+  apply Permutation_middle.
 Qed.
 
 Lemma perm_drop0 (q : list call) c ran rd : NoDup (map dc_seq q) -> In c q -> nt (tokc c) = false ->
@@ -254,16 +254,17 @@ Section OneRun.
     end.
 
   (* every event that can end the run is still scheduled *)
-  Definition present (w : world) : Prop :=
+  Definition present (q : list call) : Prop :=
     forall k t, ev_time T f k = Some t ->
-      exists c, In c (queue (w_r w)) /\ tokc c = k /\ dc_time c = c_n0 x + t.
+      exists c, In c q /\ tokc c = k /\ dc_time c = c_n0 x + t.
 
-  Inductive st_ok (w : world) : Prop :=
-  | StA : timeout_pending w = true -> has 0 (E w) = false -> has 1 (E w) = false ->
-          sp_success (w_sp w) = None -> sp_failure (w_sp w) = None -> st_ok w
-  | StB : timeout_pending w = false -> has 0 (E w) = true -> sp_failure (w_sp w) = Some ETimeout -> st_ok w
-  | StC : timeout_pending w = false -> has 0 (E w) = false -> has 1 (E w) = true ->
-          (exists t o, f_shape f = Later t o /\ get_result (w_sp w) = result_of o) -> st_ok w.
+  (* q: the queue, e: the run-ending calls that have run, sp: the spinner *)
+  Inductive st_ok (q : list call) (e : list nat) (sp : spinner) : Prop :=
+  | StA : seq_in (c_s x) q = true -> has 0 e = false -> has 1 e = false ->
+          sp_success sp = None -> sp_failure sp = None -> st_ok q e sp
+  | StB : seq_in (c_s x) q = false -> has 0 e = true -> sp_failure sp = Some ETimeout -> st_ok q e sp
+  | StC : seq_in (c_s x) q = false -> has 0 e = false -> has 1 e = true ->
+          (exists t o, f_shape f = Later t o /\ get_result sp = result_of o) -> st_ok q e sp.
 
   Record Inv (w : world) : Prop := {
     i_nodup : NoDup (map dc_seq (queue (w_r w)));
@@ -278,8 +279,8 @@ Section OneRun.
     i_junk : sp_junk (w_sp w) = [];
     i_saved : sp_saved (w_sp w) = c_saved x;
     i_tc : sp_timeout_call (w_sp w) = Some (c_s x);
-    i_st : st_ok w;
-    i_phase : running (w_r w) = true -> E w = [] /\ sp_spinning (w_sp w) = true /\ present w;
+    i_st : st_ok (queue (w_r w)) (E w) (w_sp w);
+    i_phase : running (w_r w) = true -> E w = [] /\ sp_spinning (w_sp w) = true /\ present (queue (w_r w));
     i_live : running (w_r w) = true \/ E w <> [];
     i_early : forall k, In k (E w) -> ev_time T f k = Some estar;
     i_perm : Permutation (filter nt (w_ran w) ++ filter nt (map tokc (queue (w_r w))) ++ c_rd x) (sched_tokens f)
@@ -367,7 +368,8 @@ Section OneRun.
   Proof.
     intros HI Hh Hin Ha. pose proof (i_perm w HI) as P.
     assert (Hc : count (filter nt (w_ran w) ++ filter nt (map tokc (queue (w_r w))) ++ c_rd x) 1 <= 1).
-    { unfold count. rewrite (Permutation_count_occ Nat.eq_dec P). apply count_fire_sched. }
+    { pose proof (proj1 (@Permutation_count_occ nat Nat.eq_dec _ _) P 1) as HH. unfold count. rewrite HH.
+      apply count_fire_sched. }
     rewrite !count_app_nat in Hc.
     assert (H1 : 1 <= count (filter nt (w_ran w)) 1).
     { apply count_in_pos. apply filter_In. split; [|reflexivity].
@@ -378,7 +380,7 @@ Section OneRun.
     lia.
   Qed.
 
-  Lemma st_decided w : st_ok w -> get_result (w_sp w) = decided f (E w).
+  Lemma st_decided q e sp : st_ok q e sp -> get_result sp = decided f e.
   Proof.
     unfold decided. intros [Hp H0 H1 Hs Hf | Hp H0 Hf | Hp H0 H1 [t [o [Es Hr]]]].
     - rewrite H0, H1. unfold get_result. rewrite Hf, Hs. reflexivity.
@@ -386,3 +388,515 @@ Section OneRun.
     - rewrite H0, H1, Es. exact Hr.
   Qed.
 End OneRun.
+
+Ltac prj := cbn [w_r w_stop w_sig w_flag w_sp w_ran w_reentry now nextseq queue hooks readers running
+                 really_stopped oracle sp_success sp_failure sp_junk sp_spinning sp_timeout_call sp_saved
+                 dc_time dc_seq dc_act] in *.
+
+Lemma leb_gt2 t : 10 <= t -> Nat.leb t 2 = false.
+Proof. intro H. apply Nat.leb_gt. lia. Qed.
+
+Lemma app_one_ne {A} (l : list A) a : l ++ [a] <> [].
+Proof. destruct l; discriminate. Qed.
+
+Section Step.
+  Variable x : ctx.
+
+  Lemma st_ok_ext q q' e e' sp : st_ok x q e sp -> seq_in (c_s x) q' = seq_in (c_s x) q ->
+    has 0 e' = has 0 e -> has 1 e' = has 1 e -> st_ok x q' e' sp.
+  Proof.
+    intros H Hp H0 H1. destruct H.
+    - apply StA; congruence.
+    - apply StB; congruence.
+    - apply StC; try congruence.
+  Qed.
+
+  Lemma legit_remove s q : Forall (legit x) q -> Forall (legit x) (remove_seq s q).
+  Proof.
+    intro H. apply Forall_forall. intros c Hc. apply in_remove_seq in Hc as [Hc _].
+    eapply Forall_forall in H; eauto.
+  Qed.
+
+  Lemma incl_remove s (q : list call) : incl (remove_seq s q) q.
+  Proof. intros c Hc. apply in_remove_seq in Hc. apply Hc. Qed.
+
+  Definition popw (c : call) (nw : time) (orc' : list nat) (w : world) : world :=
+    set_r (mkReactor nw (nextseq (w_r w)) (remove_seq (dc_seq c) (queue (w_r w))) (hooks (w_r w))
+                     (readers (w_r w)) (running (w_r w)) (really_stopped (w_r w)) orc') w.
+
+  Lemma exec_ok w c nw orc' :
+    Inv x w -> In c (queue (w_r w)) ->
+    (forall c', In c' (queue (w_r w)) -> dc_time c <= dc_time c') ->
+    (E w <> [] -> dc_time c = mstar x) ->
+    let w' := exec_call c (popw c nw orc' w) in
+    Inv x w' /\ (E w' <> [] -> dc_time c = mstar x)
+    /\ incl (queue (w_r w')) (queue (w_r w)) /\ length (queue (w_r w')) < length (queue (w_r w)).
+  Proof.
+    intros HI Hin Hmin HE.
+    assert (Hleg : legit x c). { eapply Forall_forall; [apply (i_legit x w HI)|exact Hin]. }
+    pose proof (first_time x w c HI Hin Hmin HE) as Hfirst.
+    pose proof (fun o => fire_once x w c o HI) as Hfire.
+    destruct HI as [Hnd Hlg Hst Hrs Hhk Hrd Hsg Hfl Hre Hjk Hsv Htc Hstate Hphase Hlive Hearly Hperm].
+    destruct w as [[n sq q h rd run rs orc] st sg fl [su fa jk spn tc sv] ran re].
+    unfold E in *. prj. subst.
+    assert (Hrunf : (if spn then false else run) = false).
+    { destruct spn; [reflexivity|]. destruct run; [|reflexivity]. destruct (Hphase eq_refl) as [_ [? _]]. discriminate. }
+    destruct c as [ct cs ca]. unfold legit in Hleg; prj. destruct Hleg as [Hs_act Hleg]. unfold tokc in Hfirst; prj.
+    destruct ca as [|o| |tk|]; cbv zeta.
+    - (* the timeout call *)
+      destruct Hleg as [-> ->].
+      assert (Hpend : seq_in (c_s x) q = true).
+      { apply seq_in_spec. eexists; split; [exact Hin|reflexivity]. }
+      destruct Hstate as [_ H0 H1 Hsu Hfa | Hp _ _ | Hp _ _ _]; [|congruence|congruence]. prj. subst su fa.
+      assert (Hestar : c_T x = estar x). { apply Hfirst; reflexivity. }
+      match goal with |- context [exec_call ?a ?b] => set (w' := exec_call a b) end.
+      assert (Ew' : w' = mkW (mkReactor nw sq (remove_seq (c_s x) q) [] (c_rd x) (if spn then false else run) false orc')
+                             SFake (c_sig x) true (mkSp None (Some ETimeout) [] false (Some (c_s x)) (c_saved x))
+                             (ran ++ [0]) (c_re x)).
+      { subst w'. destruct spn; reflexivity. }
+      rewrite Ew'. clear w' Ew'. rewrite Hrunf. prj.
+      split; [|split; [|split]].
+      + constructor; unfold E; prj; try reflexivity.
+        * apply nodup_remove_seq; exact Hnd.
+        * apply legit_remove; exact Hlg.
+        * apply StB; [apply seq_in_remove_same | | reflexivity].
+          rewrite crash_toks_app, has_app. apply orb_true_r.
+        * discriminate.
+        * right. rewrite crash_toks_app. apply app_one_ne.
+        * intros k Hk. rewrite crash_toks_app in Hk. apply in_app_or in Hk as [Hk|Hk]; [apply Hearly; exact Hk|].
+          destruct Hk as [<-|[]]. simpl. rewrite Hestar. reflexivity.
+        * pose proof (perm_drop0 q _ ran (c_rd x) Hnd Hin eq_refl) as HH. unfold tokc in HH at 1 3; prj.
+          simpl tok_of in HH. unfold tok_timeout in HH. rewrite HH. exact Hperm.
+      + intros _. unfold mstar. rewrite <- Hestar. reflexivity.
+      + apply incl_remove.
+      + exact (remove_seq_length_lt q _ Hin).
+    - (* the function's Deferred fires *)
+      destruct Hleg as [t [Hshape ->]].
+      assert (Hcs : cs <> c_s x) by (intro HH; specialize (Hs_act HH); discriminate).
+      assert (Hestar : t = estar x).
+      { apply Hfirst; [simpl; rewrite Hshape|]; reflexivity. }
+      assert (Hpq : seq_in (c_s x) (remove_seq cs q) = seq_in (c_s x) q).
+      { apply seq_in_remove_other. congruence. }
+      match goal with |- context [exec_call ?a ?b] => set (w' := exec_call a b) end.
+      destruct Hstate as [Hp H0 H1 Hsu Hfa | Hp H0 Hfa | Hp _ H1 _]; prj.
+      + (* in time: the result is recorded, the timeout cancelled *)
+        subst su fa.
+        assert (Ew' : w' = mkW (mkReactor nw sq (remove_seq (c_s x) (remove_seq cs q)) [] (c_rd x)
+                                          (if spn then false else run) false orc')
+                               SFake (c_sig x) true
+                               (mkSp (match o with Succeed v => Some v | Fail _ => None end)
+                                     (match o with Succeed _ => None | Fail e => Some (EUser e) end)
+                                     [] false (Some (c_s x)) (c_saved x))
+                               (ran ++ [1]) (c_re x)).
+        { subst w'. unfold exec_call, popw, got, timeout_pending, log_ran, set_ran, set_r. prj.
+          fold (seq_in (c_s x) (remove_seq cs q)). rewrite Hpq, Hp.
+          destruct spn, o; reflexivity. }
+        rewrite Ew'. clear w' Ew'. rewrite Hrunf. prj.
+        split; [|split; [|split]].
+        * constructor; unfold E; prj; try reflexivity.
+          -- apply nodup_remove_seq, nodup_remove_seq; exact Hnd.
+          -- apply legit_remove, legit_remove; exact Hlg.
+          -- apply StC; [apply seq_in_remove_same | | | ].
+             ++ rewrite crash_toks_app, has_app, H0. reflexivity.
+             ++ rewrite crash_toks_app, has_app. apply orb_true_r.
+             ++ exists (estar x), o. rewrite <- Hestar. split; [exact Hshape|]. destruct o; reflexivity.
+          -- discriminate.
+          -- right. rewrite crash_toks_app. apply app_one_ne.
+          -- intros k Hk. rewrite crash_toks_app in Hk. apply in_app_or in Hk as [Hk|Hk]; [apply Hearly; exact Hk|].
+             destruct Hk as [<-|[]]. simpl. rewrite Hshape, Hestar. reflexivity.
+          -- rewrite filter_nt_remove_timeout.
+             ++ pose proof (perm_move q _ ran (c_rd x) Hnd Hin eq_refl) as HH. unfold tokc in HH at 1 3; prj.
+                simpl tok_of in HH. unfold tok_fire in HH. rewrite HH. exact Hperm.
+             ++ intros c' Hc' Hs'. apply in_remove_seq in Hc' as [Hc' _].
+                eapply Forall_forall in Hlg; [|exact Hc']. destruct Hlg as [Hact _].
+                unfold tokc. rewrite (Hact Hs'). reflexivity.
+        * intros _. unfold mstar. rewrite <- Hestar. reflexivity.
+        * intros c' Hc'. apply incl_remove in Hc'. apply incl_remove in Hc'. exact Hc'.
+        * eapply Nat.le_lt_trans; [apply remove_seq_length|]. exact (remove_seq_length_lt q _ Hin).
+      + (* after the timeout call has run: cancel() raises AlreadyCalled, nothing is recorded *)
+        assert (Ew' : w' = mkW (mkReactor nw sq (remove_seq cs q) [] (c_rd x) (if spn then false else run) false orc')
+                               SFake (c_sig x) true (mkSp su fa [] false (Some (c_s x)) (c_saved x))
+                               (ran ++ [1]) (c_re x)).
+        { subst w'. unfold exec_call, popw, got, timeout_pending, log_ran, set_ran, set_r. prj.
+          fold (seq_in (c_s x) (remove_seq cs q)). rewrite Hpq, Hp.
+          destruct spn; reflexivity. }
+        rewrite Ew'. clear w' Ew'. rewrite Hrunf. prj.
+        split; [|split; [|split]].
+        * constructor; unfold E; prj; try reflexivity.
+          -- apply nodup_remove_seq; exact Hnd.
+          -- apply legit_remove; exact Hlg.
+          -- apply StB; [congruence | | exact Hfa].
+             rewrite crash_toks_app, has_app, H0. reflexivity.
+          -- discriminate.
+          -- right. rewrite crash_toks_app. apply app_one_ne.
+          -- intros k Hk. rewrite crash_toks_app in Hk. apply in_app_or in Hk as [Hk|Hk]; [apply Hearly; exact Hk|].
+             destruct Hk as [<-|[]]. simpl. rewrite Hshape, Hestar. reflexivity.
+          -- pose proof (perm_move q _ ran (c_rd x) Hnd Hin eq_refl) as HH. unfold tokc in HH at 1 3; prj.
+             simpl tok_of in HH. unfold tok_fire in HH. rewrite HH. exact Hperm.
+        * intros _. unfold mstar. rewrite <- Hestar. reflexivity.
+        * apply incl_remove.
+        * exact (remove_seq_length_lt q _ Hin).
+      + exfalso. exact (Hfire o H1 Hin eq_refl).
+    - (* the stop request *)
+      destruct Hleg as [st [Hstop ->]].
+      assert (Hcs : cs <> c_s x) by (intro HH; specialize (Hs_act HH); discriminate).
+      assert (Hestar : st = estar x).
+      { apply Hfirst; [simpl; exact Hstop | reflexivity]. }
+      assert (Hpq : seq_in (c_s x) (remove_seq cs q) = seq_in (c_s x) q).
+      { apply seq_in_remove_other. congruence. }
+      match goal with |- context [exec_call ?a ?b] => set (w' := exec_call a b) end.
+      assert (Ew' : w' = mkW (mkReactor nw sq (remove_seq cs q) [] (c_rd x) false false orc')
+                             SFake (c_sig x) true (mkSp su fa [] spn (Some (c_s x)) (c_saved x))
+                             (ran ++ [2]) (c_re x)).
+      { subst w'. reflexivity. }
+      rewrite Ew'. clear w' Ew'. prj.
+      split; [|split; [|split]].
+      + constructor; unfold E; prj; try reflexivity.
+        * apply nodup_remove_seq; exact Hnd.
+        * apply legit_remove; exact Hlg.
+        * eapply st_ok_ext; [exact Hstate | exact Hpq | |]; rewrite crash_toks_app, has_app; apply orb_false_r.
+        * discriminate.
+        * right. rewrite crash_toks_app. apply app_one_ne.
+        * intros k Hk. rewrite crash_toks_app in Hk. apply in_app_or in Hk as [Hk|Hk]; [apply Hearly; exact Hk|].
+          destruct Hk as [<-|[]]. simpl. rewrite Hstop, Hestar. reflexivity.
+        * pose proof (perm_move q _ ran (c_rd x) Hnd Hin eq_refl) as HH. unfold tokc in HH at 1 3; prj.
+          simpl tok_of in HH. unfold tok_stop in HH. rewrite HH. exact Hperm.
+      + intros _. unfold mstar. rewrite <- Hestar. reflexivity.
+      + apply incl_remove.
+      + exact (remove_seq_length_lt q _ Hin).
+    - (* a delayed call of the function's: it does nothing *)
+      assert (Hcs : cs <> c_s x) by (intro HH; specialize (Hs_act HH); discriminate).
+      assert (Hpq : seq_in (c_s x) (remove_seq cs q) = seq_in (c_s x) q).
+      { apply seq_in_remove_other. congruence. }
+      assert (Hct : crash_toks (ran ++ [tk]) = crash_toks ran).
+      { rewrite crash_toks_app. unfold crash_toks at 2. simpl. rewrite (leb_gt2 tk Hleg). apply app_nil_r. }
+      match goal with |- context [exec_call ?a ?b] => set (w' := exec_call a b) end.
+      assert (Ew' : w' = mkW (mkReactor nw sq (remove_seq cs q) [] (c_rd x) run false orc')
+                             SFake (c_sig x) true (mkSp su fa [] spn (Some (c_s x)) (c_saved x))
+                             (ran ++ [tk]) (c_re x)).
+      { subst w'. reflexivity. }
+      rewrite Ew'. clear w' Ew'. prj.
+      split; [|split; [|split]].
+      + constructor; unfold E; prj; try reflexivity; rewrite ?Hct.
+        * apply nodup_remove_seq; exact Hnd.
+        * apply legit_remove; exact Hlg.
+        * eapply st_ok_ext; [exact Hstate | exact Hpq | reflexivity | reflexivity].
+        * intro Hr. destruct (Hphase Hr) as [He [Hsp Hpres]]. split; [exact He|]. split; [exact Hsp|].
+          intros k t Hev. destruct (Hpres k t Hev) as [c' [Hc' [Hk Ht]]]. exists c'. split; [|split; assumption].
+          apply in_remove_seq. split; [exact Hc'|]. intro Hseq.
+          assert (c' = mkCall ct cs (ANoop tk)) by (apply (nodup_seq_inj q); assumption).
+          subst c'. unfold tokc in Hk; simpl in Hk. apply ev_time_le2 in Hev. lia.
+        * exact Hlive.
+        * exact Hearly.
+        * pose proof (perm_move q _ ran (c_rd x) Hnd Hin) as HH. unfold tokc in HH at 1 2 4; prj.
+          simpl tok_of in HH. rewrite HH; [exact Hperm|].
+          unfold nt, not_timeout_tok, tok_timeout. destruct tk; [lia | reflexivity].
+      + rewrite Hct. exact HE.
+      + apply incl_remove.
+      + exact (remove_seq_length_lt q _ Hin).
+    - destruct Hleg.
+  Qed.
+End Step.
+
+(* ================= the event loop ================= *)
+Section LoopProof.
+  Variable x : ctx.
+  Variable batch : bool.
+
+  Lemma pop_at_spec t (r : rtor) c r' : pop_at t r = Some (c, r') ->
+    In c (queue r) /\ dc_time c = t /\ exists nw orc',
+      r' = mkReactor nw (nextseq r) (remove_seq (dc_seq c) (queue r)) (hooks r) (readers r) (running r)
+                     (really_stopped r) orc'.
+  Proof.
+    unfold pop_at. intro H. apply pop_from_spec in H as [Hin Hr]. apply filter_In in Hin as [Hin Ht].
+    apply Nat.eqb_eq in Ht. repeat split; assumption.
+  Qed.
+
+  Lemma drain_ok : forall k tm w, Inv x w ->
+    (forall c, In c (queue (w_r w)) -> tm <= dc_time c) -> (E w <> [] -> tm = mstar x) ->
+    Inv x (drain w_r set_r exec_call k tm w)
+    /\ length (queue (w_r (drain w_r set_r exec_call k tm w))) <= length (queue (w_r w)).
+  Proof.
+    induction k as [|k IH]; intros tm w HI Hmin HE; simpl; [split; [exact HI | apply Nat.le_refl]|].
+    destruct (pop_at tm (w_r w)) as [[c r']|] eqn:Ep; [|split; [exact HI | apply Nat.le_refl]].
+    apply pop_at_spec in Ep as [Hin [Ht [nw [orc' ->]]]].
+    assert (Hminc : forall c', In c' (queue (w_r w)) -> dc_time c <= dc_time c').
+    { intros c' Hc'. rewrite Ht. apply Hmin; exact Hc'. }
+    assert (HEc : E w <> [] -> dc_time c = mstar x) by (intro H; rewrite Ht; apply HE; exact H).
+    destruct (exec_ok x w c nw orc' HI Hin Hminc HEc) as [HI1 [HE1 [Hincl Hlen]]].
+    fold (popw c nw orc' w).
+    destruct (IH tm (exec_call c (popw c nw orc' w)) HI1) as [HI2 Hlen2].
+    - intros c' Hc'. apply Hmin. apply Hincl. exact Hc'.
+    - intro H. rewrite <- Ht. apply HE1. exact H.
+    - split; [exact HI2|]. eapply Nat.le_trans; [exact Hlen2|]. apply Nat.lt_le_incl. exact Hlen.
+  Qed.
+
+  Lemma loop_S fuel w :
+    loop w_r set_r exec_call batch (S fuel) w =
+    if negb (running (w_r w)) then (LDone, w) else
+    match pop_next (w_r w) with
+    | None => (LHung, set_r (set_running false (w_r w)) w)
+    | Some (c, r') =>
+        let w1 := exec_call c (set_r r' w) in
+        loop w_r set_r exec_call batch fuel
+             (if batch then drain w_r set_r exec_call (length (queue r')) (dc_time c) w1 else w1)
+    end.
+  Proof. reflexivity. Qed.
+
+  Lemma loop_ok : forall fuel w, Inv x w -> length (queue (w_r w)) < fuel ->
+    exists w', loop w_r set_r exec_call batch fuel w = (LDone, w') /\ Inv x w' /\ running (w_r w') = false.
+  Proof.
+    induction fuel as [|fuel IH]; intros w HI Hlen; [inversion Hlen|].
+    rewrite loop_S. destruct (running (w_r w)) eqn:Hrun; simpl negb; cbv iota.
+    2:{ exists w. split; [reflexivity|]. split; assumption. }
+    destruct (i_phase x w HI Hrun) as [HE0 [_ Hpres]].
+    assert (Hne : queue (w_r w) <> []).
+    { destruct (Hpres 0 (c_T x) eq_refl) as [c0 [Hc0 _]]. intro F. rewrite F in Hc0. exact Hc0. }
+    unfold pop_next.
+    destruct (pop_from_some (candidates (queue (w_r w))) (w_r w) (candidates_ne _ Hne)) as [c [r' Ep]].
+    rewrite Ep. apply pop_from_spec in Ep as [Hcand [nw [orc' ->]]].
+    apply candidates_in in Hcand as [Hin Hmin].
+    assert (HEc : E w <> [] -> dc_time c = mstar x) by (intro H; congruence).
+    destruct (exec_ok x w c nw orc' HI Hin Hmin HEc) as [HI1 [HE1 [Hincl Hlen1]]].
+    fold (popw c nw orc' w). cbv zeta.
+    set (w1 := exec_call c (popw c nw orc' w)) in *.
+    destruct batch.
+    - destruct (drain_ok (length (remove_seq (dc_seq c) (queue (w_r w)))) (dc_time c) w1 HI1) as [HI2 Hlen2].
+      + intros c' Hc'. apply Hmin. apply Hincl. exact Hc'.
+      + exact HE1.
+      + cbn [queue]. apply IH; [exact HI2|].
+        eapply Nat.le_lt_trans; [exact Hlen2|]. eapply Nat.lt_le_trans; [exact Hlen1|].
+        apply Nat.lt_succ_r. exact Hlen.
+    - apply IH; [exact HI1|]. eapply Nat.lt_le_trans; [exact Hlen1|]. apply Nat.lt_succ_r. exact Hlen.
+  Qed.
+End LoopProof.
+
+(* ================= what the function leaves with the reactor ================= *)
+Fixpoint mk_extras (n : time) (s i : nat) (ds : list time) : list call :=
+  match ds with
+  | [] => []
+  | d :: r => mkCall (n + d) s (ANoop (tok_extra i)) :: mk_extras n (S s) (S i) r
+  end.
+
+Lemma schedule_extras_eq : forall ds i (r : rtor) st sg fl sp ran re,
+  schedule_extras i ds (mkW r st sg fl sp ran re) =
+  mkW (mkReactor (now r) (length ds + nextseq r) (queue r ++ mk_extras (now r) (nextseq r) i ds) (hooks r)
+                 (readers r) (running r) (really_stopped r) (oracle r)) st sg fl sp ran re.
+Proof.
+  induction ds as [|d ds IH]; intros i r st sg fl sp ran re; simpl.
+  - rewrite app_nil_r. destruct r; reflexivity.
+  - destruct r as [rn rs rq rh rr rrun rrs ro]. unfold later, set_r, call_later. prj. cbn [fst].
+    rewrite IH. prj. rewrite <- app_assoc. simpl. rewrite Nat.add_succ_r. reflexivity.
+Qed.
+
+Lemma add_sels_eq : forall m j (r : rtor) st sg fl sp ran re,
+  add_sels j m (mkW r st sg fl sp ran re) =
+  mkW (mkReactor (now r) (nextseq r) (queue r) (hooks r) (readers r ++ map tok_sel (seq j m)) (running r)
+                 (really_stopped r) (oracle r)) st sg fl sp ran re.
+Proof.
+  induction m as [|m IH]; intros j r st sg fl sp ran re; simpl.
+  - rewrite app_nil_r. destruct r; reflexivity.
+  - destruct r as [rn rs rq rh rr rrun rrs ro]. unfold set_r, add_reader, set_readers. prj. rewrite IH. prj.
+    rewrite <- app_assoc. reflexivity.
+Qed.
+
+Lemma mk_extras_seqs n s i ds : map dc_seq (mk_extras n s i ds) = seq s (length ds).
+Proof. revert s i; induction ds as [|d ds IH]; intros s i; simpl; [reflexivity|]. rewrite IH. reflexivity. Qed.
+
+Lemma mk_extras_toks n s i ds : map tokc (mk_extras n s i ds) = map tok_extra (seq i (length ds)).
+Proof. revert s i; induction ds as [|d ds IH]; intros s i; simpl; [reflexivity|]. rewrite IH. reflexivity. Qed.
+
+Lemma mk_extras_length n s i ds : length (mk_extras n s i ds) = length ds.
+Proof. revert s i; induction ds as [|d ds IH]; intros s i; simpl; [reflexivity|]. rewrite IH. reflexivity. Qed.
+
+Lemma mk_extras_in n s i ds c : In c (mk_extras n s i ds) ->
+  (exists j, dc_act c = ANoop (tok_extra j)) /\ s <= dc_seq c < s + length ds.
+Proof.
+  revert s i; induction ds as [|d ds IH]; intros s i; simpl; [intros []|].
+  intros [<-|H]; simpl.
+  - split; [eexists; reflexivity | lia].
+  - destruct (IH _ _ H) as [H1 H2]. split; [exact H1 | lia].
+Qed.
+
+Lemma filter_nt_extras i k : filter nt (map tok_extra (seq i k)) = map tok_extra (seq i k).
+Proof.
+  revert i; induction k as [|k IH]; intro i; simpl; [reflexivity|]. rewrite IH. reflexivity.
+Qed.
+
+Lemma nodup_seq_tail : forall k base (tl : list nat),
+  (forall y, In y tl -> base + k <= y) -> NoDup tl -> NoDup (seq base k ++ tl).
+Proof.
+  induction k as [|k IH]; intros base tl Hb Hn; simpl; [exact Hn|].
+  constructor.
+  - intro H. apply in_app_or in H as [H|H].
+    + apply in_seq in H. lia.
+    + specialize (Hb _ H). lia.
+  - apply IH; [|exact Hn]. intros y Hy. specialize (Hb _ Hy). lia.
+Qed.
+
+Lemma loop_stopped batch fuel w : running (w_r w) = false ->
+  loop w_r set_r exec_call batch fuel w = (LDone, w).
+Proof. intro H. destruct fuel; simpl; rewrite H; reflexivity. Qed.
+
+(* a run() tried from inside the function is refused: nothing changes *)
+Lemma inner_refused iters batch w : w_flag w = true -> inner_run iters batch w = (Raised EReentry, w).
+Proof. intro H. unfold inner_run, guarded. rewrite H. reflexivity. Qed.
+
+(* the pieces of the queue after the function has been called *)
+Definition q_stop (n : time) (s : nat) (f : fn) : list call :=
+  match f_stop f with Some st => [mkCall (n + st) s AStopReq] | None => [] end.
+Definition q_fire (n : time) (s : nat) (f : fn) : list call :=
+  match f_shape f with Later t o => [mkCall (n + t) s (AFire o)] | _ => [] end.
+Definition sig_fn (f : fn) (sg : sigtab) : sigtab :=
+  match f_setsig f with Some (s, h) => setsig s h sg | None => sg end.
+Definition is_sync (f : fn) : bool := match f_shape f with Sync _ _ => true | _ => false end.
+
+Section AfterFunction.
+  Variables (n T : time) (f : fn) (sq : nat) (orc : list nat) (sg SV : sigtab) (re : option bool) (iters : nat) (batch : bool).
+
+  Definition tmo : call := mkCall (n + T) sq ATimeout.
+  Definition k_ex := length (f_extras f).
+  Definition s_stop := k_ex + S sq.
+  Definition s_fire := length (q_stop n s_stop f) + s_stop.
+  Definition q_mid : list call := mk_extras n (S sq) 0 (f_extras f) ++ q_stop n s_stop f.
+  Definition q_rest : list call := q_mid ++ q_fire n s_fire f.
+  Definition rd2 : list nat := map tok_sel (seq 0 (f_sels f)).
+  Definition re2 : option bool := if f_reenter f then Some true else re.
+
+  (* the world in which the callWhenRunning hook calls the function *)
+  Definition w_hook : world :=
+    mkW (mkReactor n (S sq) [tmo] [] [] true false orc) SFake sg true
+        (mkSp None None [] true (Some sq) SV) [] re.
+
+  (* ... and just before the function returns *)
+  Definition w_pre : world :=
+    mkW (mkReactor n s_fire (tmo :: q_mid) [] rd2 (negb (f_stop_now f)) false orc) SFake (sig_fn f sg) true
+        (mkSp None None [] true (Some sq) SV) [] re2.
+
+  Definition w_after : world :=
+    match f_shape f with
+    | Sync _ o =>
+        mkW (mkReactor n s_fire q_rest [] rd2 false false orc) SFake (sig_fn f sg) true
+            (mkSp (match o with Succeed v => Some v | Fail _ => None end)
+                  (match o with Succeed _ => None | Fail e => Some (EUser e) end)
+                  [] false (Some sq) SV) [] re2
+    | _ =>
+        mkW (mkReactor n (length (q_fire n s_fire f) + s_fire) (tmo :: q_rest) [] rd2 (negb (f_stop_now f)) false orc)
+            SFake (sig_fn f sg) true (mkSp None None [] true (Some sq) SV) [] re2
+    end.
+
+  Lemma q_rest_seqs c : In c q_rest -> sq < dc_seq c.
+  Proof.
+    unfold q_rest, q_mid, q_stop, q_fire, s_fire, s_stop, q_stop, k_ex. intro H.
+    apply in_app_or in H as [H|H]; [apply in_app_or in H as [H|H]|].
+    - apply mk_extras_in in H; lia.
+    - destruct (f_stop f); simpl in H; [destruct H as [<-|[]]; simpl; lia | destruct H].
+    - destruct (f_shape f); simpl in H; try destruct H as [<-|[]]; try destruct H. simpl. lia.
+  Qed.
+
+  Lemma remove_tmo : remove_seq sq (tmo :: q_rest) = q_rest.
+  Proof.
+    unfold remove_seq. simpl. rewrite Nat.eqb_refl. simpl. fold (remove_seq sq q_rest).
+    apply remove_seq_notin. intro H. apply in_map_iff in H as [c [Hs Hc]]. apply q_rest_seqs in Hc. lia.
+  Qed.
+
+  Lemma run_function_pre :
+    run_function (inner_run iters batch) f w_hook =
+    match f_shape f with
+    | Sync _ o => stop_reactor (got o w_pre)
+    | Later t o => later t (AFire o) w_pre
+    | Never => w_pre
+    end.
+  Proof.
+    unfold run_function, w_hook. rewrite schedule_extras_eq. prj. rewrite add_sels_eq. prj.
+    unfold w_pre, q_mid, rd2, re2, sig_fn, s_fire, s_stop, q_stop, k_ex.
+    destruct f as [shape extras sels stop stop_now reenter setsig].
+    cbn [f_shape f_extras f_sels f_stop f_stop_now f_reenter f_setsig].
+    destruct stop as [st|], setsig as [[ss hh]|], reenter, stop_now; rewrite ?app_nil_r; reflexivity.
+  Qed.
+
+  Lemma shape_step :
+    match f_shape f with
+    | Sync _ o => stop_reactor (got o w_pre)
+    | Later t o => later t (AFire o) w_pre
+    | Never => w_pre
+    end = w_after.
+  Proof.
+    pose proof remove_tmo as Hrm. unfold w_after, q_rest, q_fire in *.
+    destruct (f_shape f) as [how o|t o|].
+    - rewrite app_nil_r in *. unfold w_pre, got, timeout_pending. prj. simpl existsb. rewrite Nat.eqb_refl.
+      simpl orb. cbv iota. unfold cancel_timeout, cancel, set_queue, set_r. prj. rewrite Hrm.
+      destruct o; reflexivity.
+    - unfold w_pre, later, call_later, set_r. prj. cbn [fst]. reflexivity.
+    - rewrite app_nil_r. reflexivity.
+  Qed.
+
+  Lemma run_function_eq : run_function (inner_run iters batch) f w_hook = w_after.
+  Proof. rewrite run_function_pre. apply shape_step. Qed.
+
+  (* ---- the loop invariant holds when the loop is entered ---- *)
+  Definition cx : ctx := mkCtx n T f sq (sig_fn f sg) re2 SV rd2.
+
+  Lemma q_all_nodup : NoDup (map dc_seq (tmo :: q_rest)).
+  Proof.
+    simpl. constructor.
+    - intro H. apply in_map_iff in H as [c [Hs Hc]]. apply q_rest_seqs in Hc. lia.
+    - unfold q_rest, q_mid. rewrite !map_app, mk_extras_seqs, <- app_assoc. apply nodup_seq_tail.
+      + unfold q_stop, q_fire, s_fire, s_stop, q_stop, k_ex. intros y Hy.
+        destruct (f_stop f), (f_shape f); simpl in Hy; intuition lia.
+      + unfold q_stop, q_fire, s_fire, s_stop, q_stop, k_ex.
+        destruct (f_stop f), (f_shape f); simpl; repeat constructor; simpl; intuition lia.
+  Qed.
+
+  Lemma q_all_legit : Forall (legit cx) (tmo :: q_rest).
+  Proof.
+    constructor.
+    - split; [reflexivity|]. simpl. split; reflexivity.
+    - apply Forall_forall. intros c Hc. split.
+      + intro Hs. apply q_rest_seqs in Hc. simpl in Hs. lia.
+      + unfold q_rest, q_mid in Hc. apply in_app_or in Hc as [Hc|Hc]; [apply in_app_or in Hc as [Hc|Hc]|].
+        * apply mk_extras_in in Hc as [[j Hj] _]. rewrite Hj. unfold tok_extra. lia.
+        * unfold q_stop in Hc. destruct (f_stop f) as [st|] eqn:Es; simpl in Hc; [|destruct Hc].
+          destruct Hc as [<-|[]]. simpl. exists st. split; [exact Es | reflexivity].
+        * unfold q_fire in Hc. destruct (f_shape f) as [|t o|] eqn:Es; simpl in Hc; try destruct Hc as [<-|[]]; try destruct Hc.
+          simpl. exists t. split; [exact Es | reflexivity].
+  Qed.
+
+  Lemma q_all_present : present cx (tmo :: q_rest).
+  Proof.
+    intros k t Hev. simpl in Hev. destruct k as [|[|[|k]]]; simpl in Hev.
+    - injection Hev as <-. exists tmo. split; [left; reflexivity|]. split; reflexivity.
+    - destruct (f_shape f) as [|t' o|] eqn:Es; try discriminate. injection Hev as <-.
+      exists (mkCall (n + t') s_fire (AFire o)). split; [|split; reflexivity].
+      right. unfold q_rest. apply in_or_app. right. unfold q_fire. rewrite Es. left; reflexivity.
+    - exists (mkCall (n + t) s_stop AStopReq). split; [|split; reflexivity].
+      right. unfold q_rest, q_mid. apply in_or_app. left. apply in_or_app. right. unfold q_stop. rewrite Hev.
+      left; reflexivity.
+    - discriminate.
+  Qed.
+
+  Lemma q_rest_toks : filter nt (map tokc q_rest) ++ rd2 = sched_tokens f.
+  Proof.
+    unfold q_rest, q_mid, sched_tokens, rd2. rewrite !map_app, !filter_app, mk_extras_toks, filter_nt_extras.
+    unfold q_stop, q_fire. destruct (f_stop f), (f_shape f); simpl; rewrite <- ?app_assoc; reflexivity.
+  Qed.
+
+  Lemma rd2_toks t : In t rd2 -> 100 <= t.
+  Proof. unfold rd2. intro H. apply in_map_iff in H as [j [<- _]]. unfold tok_sel. lia. Qed.
+
+  Lemma after_inv : is_sync f = false -> f_stop_now f = false -> Inv cx w_after.
+  Proof.
+    intros Hsy Hsn.
+    assert (Ew : w_after = mkW (mkReactor n (length (q_fire n s_fire f) + s_fire) (tmo :: q_rest) [] rd2 true false orc)
+                               SFake (sig_fn f sg) true (mkSp None None [] true (Some sq) SV) [] re2).
+    { unfold w_after. unfold is_sync in Hsy. rewrite Hsn. destruct (f_shape f); [discriminate| |]; reflexivity. }
+    rewrite Ew. constructor; unfold E; prj; try reflexivity.
+    - exact q_all_nodup.
+    - exact q_all_legit.
+    - apply StA; try reflexivity. simpl. rewrite Nat.eqb_refl. reflexivity.
+    - intros _. split; [reflexivity|]. split; [reflexivity|]. exact q_all_present.
+    - left; reflexivity.
+    - intros k [].
+    - simpl. rewrite q_rest_toks. apply Permutation_refl.
+  Qed.
+End AfterFunction.
